@@ -972,6 +972,799 @@ theorem r_if1 (wc : Ctx) (sc : QV.Spec.Sem.Ctx) (ic : ICtx) (isRet : Bool) (wl :
         rw [hcF, hlenF] at this
         exact this
 
+theorem spec_stmts_if_ret (c : QV.Spec.Sem.Ctx) (cnd : Expr) (A B rest : List Stmt)
+    (s : QV.Spec.Sem.St) (out : QV.Spec.Sem.Outcome) (s' : QV.Spec.Sem.St)
+    (h : QV.Spec.Sem.execStmts c (.if_ cnd (.block A) (some (.block B)) :: rest) s = some (out, s')) :
+    ∃ xc sC o1 s1', QV.Spec.Sem.evalExpr c cnd s = some (.bool xc, sC) ∧
+      QV.Spec.Sem.execStmts c (if xc then A else B) sC = some (o1, s1') ∧
+      (∀ w, o1 = .normal w → ∃ out', QV.Spec.Sem.execStmts c rest ((s1'.leave sC.vars.length).leave sC.vars.length) =
+        some (out', s') ∧ out = afterVal (w.getD .void) out') ∧
+      (∀ v, o1 = .ret v → out = .ret v) := by
+  obtain ⟨xc, sC, o1, s1', he, hx1, hcont⟩ := spec_stmts_if c cnd A B rest s out s' h
+  refine ⟨xc, sC, o1, s1', he, hx1, hcont, ?_⟩
+  intro v hv
+  subst hv
+  rw [QV.Spec.Sem.execStmts.eq_def] at h
+  simp only at h
+  rw [QV.Spec.Sem.execStmt.eq_def] at h
+  cases xc with
+  | true =>
+    simp only [he] at h
+    rw [QV.Spec.Sem.execStmt.eq_def] at h
+    simp only [if_true] at hx1
+    simp only [hx1, Option.map_some, Option.some.injEq, Prod.mk.injEq] at h
+    exact h.1.symm
+  | false =>
+    simp only [he] at h
+    rw [QV.Spec.Sem.execStmt.eq_def] at h
+    simp only [Bool.false_eq_true, if_false] at hx1
+    simp only [hx1, Option.map_some, Option.some.injEq, Prod.mk.injEq] at h
+    exact h.1.symm
+
+/-- `if (c) { T } else { B }; rest` with a returning consequence -/
+theorem r_if_ret_else (wc : Ctx) (sc : QV.Spec.Sem.Ctx) (ic : ICtx) (isRet : Bool) (wl : QV.Model.Locals)
+    (vars : List QV.Spec.Sem.Var) (cnd : Expr) (A B rest : List Stmt)
+    (hc : WalkOk wc sc ic wl vars cnd) (hA : SOk wc sc ic true wl vars A) (hB : BodyOk wc sc ic wl vars B)
+    (hrest : ROk wc sc ic isRet wl vars rest) :
+    ROk wc sc ic isRet wl vars (.if_ cnd (.block A) (some (.block B)) :: rest) := by
+  intro s s' h hl hvr hinj ho
+  rw [run_stmts_cons] at h
+  cases hd : (walkStmt wc none (.if_ cnd (.block A) (some (.block B)))).run s with
+  | mk r sd =>
+    rw [hd] at h
+    cases r with
+    | none =>
+      simp only at h
+      cases hq : (walkStmts wc none rest).run sd with
+      | mk q sq =>
+        rw [hq] at h
+        cases q <;> (simp only at h; injection h with h _; cases h)
+    | some u =>
+      cases u
+      simp only at h
+      obtain ⟨cop, s1, s2, s3, hw1, hwa, hwb, htc, hsd⟩ := run_if_else wc cnd (.block A) (.block B) s sd hd
+      have r1 := hc s s1 cop hw1 hl hvr ho
+      obtain ⟨blkC, hoC⟩ := r1.walked.exitOpen
+      have w1 : Walked s.b s1.b := r1.walked
+      have hvr1 : VarRel s1.b.newBlock.2.code.locals wl vars := hvr.mono w1.locals
+      rw [run_block] at hwa
+      generalize hrRA : (walkStmts wc none A).run { s1 with b := s1.b.newBlock.2 } = pRA at hwa
+      obtain ⟨rrA, sRA⟩ := pRA
+      have hrrA : rrA = some true ∧ s2 = { sRA with locals := s1.locals } := by
+        cases rrA with
+        | none => simp only at hwa; injection hwa with hwa _; cases hwa
+        | some ok =>
+          cases ok with
+          | false => simp only at hwa; injection hwa with hwa _; cases hwa
+          | true => simp only at hwa; injection hwa with _ hs; exact ⟨rfl, hs.symm⟩
+      obtain ⟨hrrA1, hs2⟩ := hrrA
+      subst hrrA1
+      obtain ⟨srA, opA, hfinA, wRA, hokA, simRA⟩ := hA _ sRA hrRA r1.locals hvr1 hinj ⟨{}, newBlock_open hoC⟩
+      have wRA : Walked s1.b.newBlock.2 srA.b := wRA
+      obtain ⟨blkRA, hoRA⟩ := wRA.exitOpen
+      obtain ⟨wvrA, hcurRA, hgetRA, hlocRA, hopenRA⟩ := walked_visitReturn srA.b blkRA opA hoRA
+      have hs2b : s2.b = visitReturnStatement srA.b opA := by rw [hs2]; simpa [finish] using hfinA
+      rw [← hs2b] at wvrA hcurRA hgetRA hlocRA hopenRA
+      have w2 : Walked s1.b.newBlock.2 s2.b := wRA.trans wvrA
+      have hl2 : s2.locals = wl := by rw [hs2]; exact r1.locals
+      obtain ⟨blkA, hoA⟩ := w2.exitOpen
+      have hvr2 : VarRel s2.b.newBlock.2.code.locals wl vars := hvr1.mono w2.locals
+      obtain ⟨hl3, w3, simB⟩ := branch_ok wc sc ic wl vars B hB { s2 with b := s2.b.newBlock.2, locals := s1.locals } s3 hwb
+        r1.locals hvr2 hinj ⟨{}, newBlock_open hoA⟩
+      have w3 : Walked s2.b.newBlock.2 s3.b := w3
+      obtain ⟨blkB, hoB⟩ := w3.exitOpen
+      have hcm1 : s1.b.newBlock.2.currentRef = s1.b.currentRef + 1 := newBlock_cur hoC
+      have hcm2 : s2.b.newBlock.2.currentRef = s2.b.currentRef + 1 := newBlock_cur hoA
+      have hCA : s1.b.currentRef + 1 ≤ s2.b.currentRef := by have := w2.cur_le; omega
+      have hAB : s2.b.currentRef + 1 ≤ s3.b.currentRef := by have := w3.cur_le; omega
+      have hsC : s.b.currentRef ≤ s1.b.currentRef := w1.cur_le
+      have hlenC := open_len hoC
+      have hlenA := open_len hoA
+      have hlenB := open_len hoB
+      have hC2 : s2.b.code.blocks[s1.b.currentRef]? = some blkC := by
+        rw [w2.below _ (by omega), newBlock_get _ _ (by omega)]; exact hoC.1
+      have hC3 : s3.b.code.blocks[s1.b.currentRef]? = some blkC := by
+        rw [w3.below _ (by omega), newBlock_get _ _ (by omega)]; exact hC2
+      have hA3 : s3.b.code.blocks[s2.b.currentRef]? = some blkA := by
+        rw [w3.below _ (by omega), newBlock_get _ _ (by omega)]; exact hoA.1
+      have hCm : s3.b.newBlock.2.code.blocks[s1.b.currentRef]? = some blkC := by
+        rw [newBlock_get _ _ (by omega)]; exact hC3
+      have hAm : s3.b.newBlock.2.code.blocks[s2.b.currentRef]? = some blkA := by
+        rw [newBlock_get _ _ (by omega)]; exact hA3
+      have hBm : s3.b.newBlock.2.code.blocks[s3.b.currentRef]? = some blkB := by
+        rw [newBlock_get _ _ (by omega)]; exact hoB.1
+      obtain ⟨f2, f3, f4, f5, f6, f7, f8, f9⟩ := visitIf_facts s3.b.newBlock.2 cop _ _ _ blkC blkA blkB
+        hCm hoC.2 hAm hoA.2 hBm hoB.2 (by omega) (by omega) (by omega)
+      have hsdb : sd.b = visitIfStatement s3.b.newBlock.2 cop s1.b.currentRef s2.b.currentRef (some s3.b.currentRef) := by
+        rw [hsd]
+      rw [← hsdb] at f2 f3 f4 f5 f6 f7 f8 f9
+      have hnl : s3.b.newBlock.2.code.locals = s3.b.code.locals := rfl
+      have hnlen : s3.b.newBlock.2.code.blocks.length = s3.b.code.blocks.length + 1 := by simp [Builder.newBlock]
+      rw [hnl] at f4
+      have hcF : sd.b.currentRef = s3.b.currentRef + 1 := by
+        simp only [Builder.currentRef] at hlenB ⊢
+        omega
+      have hch1 : ∀ i, i < s1.b.currentRef → sd.b.code.blocks[i]? = s1.b.code.blocks[i]? := by
+        intro i hi
+        rw [f6 i (by omega) (by omega) (by omega), newBlock_get _ _ (by omega), w3.below i (by omega),
+          newBlock_get _ _ (by omega), w2.below i (by omega), newBlock_get _ _ (by omega)]
+      have hch2 : ∀ i, s1.b.currentRef < i → i < s2.b.currentRef → sd.b.code.blocks[i]? = s2.b.code.blocks[i]? := by
+        intro i h1 h2
+        rw [f6 i (by omega) (by omega) (by omega), newBlock_get _ _ (by omega), w3.below i (by omega),
+          newBlock_get _ _ (by omega)]
+      have hch3 : ∀ i, s2.b.currentRef < i → i < s3.b.currentRef → sd.b.code.blocks[i]? = s3.b.code.blocks[i]? := by
+        intro i h1 h2
+        rw [f6 i (by omega) (by omega) (by omega), newBlock_get _ _ (by omega)]
+      have hexit : sd.b.code.blocks[s3.b.currentRef + 1]? = some {} := by
+        rw [f6 _ (by omega) (by omega) (by omega), hlenB]; exact newBlock_last s3.b
+      obtain ⟨t2, hlo2⟩ := w2.locals
+      obtain ⟨t3, hlo3⟩ := w3.locals
+      have hnl1 : s1.b.newBlock.2.code.locals = s1.b.code.locals := rfl
+      have hnl2 : s2.b.newBlock.2.code.locals = s2.b.code.locals := rfl
+      rw [hnl1] at hlo2
+      rw [hnl2] at hlo3
+      have hextF : Ext s1.b sd.b := by
+        refine ⟨f2.trans (w3.panic.trans w2.panic), ⟨t2 ++ t3, by rw [f4, hlo3, hlo2]; simp⟩,
+          f3.trans (w3.params.trans w2.params), by omega, hch1, blkC, _, hoC.1, hoC.2, f7, [], by simp⟩
+      have hwalked : Walked s.b sd.b := by
+        refine ⟨w1.toExt.trans hextF, ?_, ⟨{}, by rw [OpenAt, hcF]; exact ⟨hexit, rfl⟩⟩, ?_⟩
+        · intro i hlo hhi
+          rcases Nat.lt_or_ge i s1.b.currentRef with hlt | hge
+          · obtain ⟨bi, hbi, hti⟩ := w1.closed i hlo hlt
+            exact ⟨bi, by rw [hch1 i hlt]; exact hbi, hti⟩
+          · rcases Nat.eq_or_lt_of_le hge with heq | hgt
+            · subst heq; exact ⟨_, f7, rfl⟩
+            · rcases Nat.lt_or_ge i s2.b.currentRef with hlt2 | hge2
+              · obtain ⟨bi, hbi, hti⟩ := w2.closed i (by omega) hlt2
+                exact ⟨bi, by rw [hch2 i hgt hlt2]; exact hbi, hti⟩
+              · rcases Nat.eq_or_lt_of_le hge2 with heq2 | hgt2
+                · subst heq2; exact ⟨_, f8, rfl⟩
+                · rcases Nat.lt_or_ge i s3.b.currentRef with hlt3 | hge3
+                  · obtain ⟨bi, hbi, hti⟩ := w3.closed i (by omega) hlt3
+                    exact ⟨bi, by rw [hch3 i hgt2 hlt3]; exact hbi, hti⟩
+                  · have : i = s3.b.currentRef := by omega
+                    subst this; exact ⟨_, f9, rfl⟩
+        · intro i hlo hhi bi j hbi hbr
+          rcases Nat.lt_or_ge i s1.b.currentRef with hlt | hge
+          · rw [hch1 i hlt] at hbi
+            have := w1.brs i hlo hlt bi j hbi hbr
+            omega
+          · rcases Nat.eq_or_lt_of_le hge with heq | hgt
+            · subst heq
+              rw [f7] at hbi
+              injection hbi with hbi
+              subst hbi
+              simp at hbr
+            · rcases Nat.lt_or_ge i s2.b.currentRef with hlt2 | hge2
+              · rw [hch2 i hgt hlt2] at hbi
+                have := w2.brs i (by omega) hlt2 bi j hbi hbr
+                omega
+              · rcases Nat.eq_or_lt_of_le hge2 with heq2 | hgt2
+                · subst heq2
+                  rw [f8] at hbi
+                  injection hbi with hbi
+                  subst hbi
+                  simp only [Option.some.injEq, Terminator.br.injEq] at hbr
+                  omega
+                · rcases Nat.lt_or_ge i s3.b.currentRef with hlt3 | hge3
+                  · rw [hch3 i hgt2 hlt3] at hbi
+                    have := w3.brs i (by omega) hlt3 bi j hbi hbr
+                    omega
+                  · have : i = s3.b.currentRef := by omega
+                    subst this
+                    rw [f9] at hbi
+                    injection hbi with hbi
+                    subst hbi
+                    simp only [Option.some.injEq, Terminator.br.injEq] at hbr
+                    omega
+      have hsdl : sd.locals = wl := by rw [hsd]; exact r1.locals
+      have hvrd : VarRel sd.b.code.locals wl vars := by
+        rw [f4]; exact hvr2.mono ⟨t3, by rw [hnl2]; exact hlo3⟩
+      obtain ⟨s4, op4, hfin, w4, hok4, hsim4⟩ := hrest sd s' h hsdl hvrd hinj hwalked.exitOpen
+      refine ⟨s4, op4, hfin, hwalked.trans w4, hok4, ?_⟩
+      intro C hC hret st sst out sst' hvars hw hnc hval hsp
+      have hC' : Covers C sd.b s.b.currentRef := Covers.of_ext w4.toExt hC hwalked.cur_le
+      obtain ⟨xc, sC, o1, sJ, hsc, hsbr, hcont, hretv⟩ := spec_stmts_if_ret sc cnd A B rest sst out sst' hsp
+      have hCv1 : Covers C s1.b s.b.currentRef :=
+        Covers.sub hC' hsC (by omega) (by rw [f4, hlo3, hlo2]; simp [List.append_assoc])
+          (fun i _ hi => hch1 i hi) ⟨blkC, _, hoC.1, f7, List.prefix_refl _⟩
+      have hCv2 : Covers C s2.b (s1.b.currentRef + 1) :=
+        Covers.sub (hC'.mono (by omega)) hCA (by omega) (by rw [f4, hlo3]; exact List.prefix_append _ _)
+          (fun i h1 h2 => hch2 i (by omega) h2) ⟨blkA, _, hoA.1, f8, List.prefix_refl _⟩
+      have hCv3 : Covers C s3.b (s2.b.currentRef + 1) :=
+        Covers.sub (hC'.mono (by omega)) hAB (by omega) (by rw [f4]; exact List.prefix_refl _)
+          (fun i h1 h2 => hch3 i (by omega) h2) ⟨blkB, _, hoB.1, f9, List.prefix_refl _⟩
+      have hCC := hC'.closed _ hsC (by omega : s1.b.currentRef < sd.b.currentRef)
+      rw [f7] at hCC
+      have hCA' := hC'.closed _ (by omega : s.b.currentRef ≤ s2.b.currentRef) (by omega : s2.b.currentRef < sd.b.currentRef)
+      rw [f8] at hCA'
+      have hCB' := hC'.closed _ (by omega : s.b.currentRef ≤ s3.b.currentRef) (by omega : s3.b.currentRef < sd.b.currentRef)
+      rw [f9] at hCB'
+      have hlenF : curLen sd.b = 0 := by simp [curLen, hcF, hexit]
+      obtain ⟨hsa, d1, st1, hd1, hrun1, hv1, hp1, hw1', ht1, _⟩ := r1.sim C hCv1 st sst sC (.bool xc) hvars hw hnc hval hsc
+      subst hsa
+      have hval1 : ValRel wl sC.vars st1.L := hval.mono hvr hp1
+      have hkC : curLen s1.b = blkC.statements.length := curLen_of_open hoC
+      have hstepC : ∀ fuel, runAt ic C (fuel + 1) s1.b.currentRef (curLen s1.b) st1 =
+          runAt ic C fuel (if xc then s1.b.currentRef + 1 else s2.b.currentRef + 1) 0 st1 := by
+        intro fuel
+        exact runAt_brCond ic C fuel _ _ _ _ _ cop st1 xc hCC (by rw [hkC]; exact Nat.le_refl _) rfl hv1
+      have hc4 := w4.cur_le
+      cases xc with
+      | true =>
+        simp only [if_true] at hsbr hstepC
+        have hcRA := wRA.cur_le
+        have hCvRA : Covers C srA.b (s1.b.currentRef + 1) := Covers.of_ext wvrA.toExt hCv2 (by omega)
+        obtain ⟨v, ho1, d2, st2, hd2, hrun2, hv2⟩ :=
+          simRA C (by show Covers C srA.b s1.b.newBlock.2.currentRef; rw [hcm1]; exact hCvRA) st1 sC o1 sJ hvars
+            (hw.trans hw1'.symm) (by rw [hw1']; exact hnc) hval1 hsbr
+        have hout : out = .ret v := hretv v (by rw [ho1]; rfl)
+        have hd2' : d2 ≤ srA.b.currentRef - (s1.b.currentRef + 1) := by
+          have : d2 ≤ srA.b.currentRef - s1.b.newBlock.2.currentRef := hd2
+          omega
+        have hrun2' : ∀ fuel, runAt ic C (fuel + d2) (s1.b.currentRef + 1) 0 st1 =
+            runAt ic C fuel srA.b.currentRef (curLen srA.b) st2 := by
+          intro fuel
+          have := hrun2 fuel
+          rw [show ({ s1 with b := s1.b.newBlock.2 } : WState).b = s1.b.newBlock.2 from rfl, hcm1,
+            curLen_of_open (newBlock_open hoC)] at this
+          exact this
+        have hCR : C.blocks[srA.b.currentRef]? = some { blkRA with terminator := some (.ret (ensureConcreteString opA)) } := by
+          rw [hC'.closed _ (by omega) (by omega), hch2 _ (by omega) (by omega)]
+          exact hgetRA
+        refine ⟨v, by rw [hout]; rfl, d1 + 1 + d2, st2, by omega, ?_⟩
+        intro fuel
+        have : fuel + (d1 + 1 + d2) = (fuel + d2 + 1) + d1 := by omega
+        rw [this, hrun1, hstepC, hrun2', runAt_ret ic C _ _ _ _ (ensureConcreteString opA) st2 hCR
+          (by simp [curLen_of_open hoRA]) rfl, evalOperand_ensure, hv2]
+        rfl
+      | false =>
+        simp only [Bool.false_eq_true, if_false] at hsbr hstepC
+        obtain ⟨⟨w, ho1⟩, hshJ, d3, st3, hd3, hrun3, hval3, hww3, hw3'⟩ :=
+          simB C (by show Covers C s3.b s2.b.newBlock.2.currentRef; rw [hcm2]; exact hCv3) st1 sC o1 sJ hvars
+            (hw.trans hw1'.symm) (by rw [hw1']; exact hnc) hval1 hsbr
+        obtain ⟨out', hrs, hout⟩ := hcont w ho1
+        have hlenJ : sJ.vars.length = sC.vars.length := by
+          rw [length_of_shape hshJ, length_of_shape hvars]
+        rw [leave_same sJ _ hlenJ, leave_same sJ _ hlenJ] at hrs
+        have hd3' : d3 ≤ s3.b.currentRef - (s2.b.currentRef + 1) := by
+          have : d3 ≤ s3.b.currentRef - s2.b.newBlock.2.currentRef := hd3
+          omega
+        have hrun3' : ∀ fuel, runAt ic C (fuel + d3) (s2.b.currentRef + 1) 0 st1 =
+            runAt ic C fuel s3.b.currentRef (curLen s3.b) st3 := by
+          intro fuel
+          have := hrun3 fuel
+          rw [show ({ s2 with b := s2.b.newBlock.2, locals := s1.locals } : WState).b = s2.b.newBlock.2 from rfl, hcm2,
+            curLen_of_open (newBlock_open hoA)] at this
+          exact this
+        have hkB : curLen s3.b = blkB.statements.length := curLen_of_open hoB
+        have hstepB : ∀ fuel, runAt ic C (fuel + 1) s3.b.currentRef (curLen s3.b) st3 =
+            runAt ic C fuel (s3.b.currentRef + 1) 0 st3 := by
+          intro fuel
+          exact runAt_br ic C fuel _ _ _ _ st3 hCB' (by rw [hkB]; exact Nat.le_refl _) rfl
+        obtain ⟨val, hout4, d4, res, hd4, hrun4⟩ := hsim4 C (hC.mono hwalked.cur_le) hret st3 sJ out' sst' hshJ hww3
+          (by rw [hw3', hw1']; exact hnc) hval3 hrs
+        refine ⟨val, by rw [hout]; exact outVal_afterVal _ _ _ hout4, d1 + 1 + d3 + 1 + d4, res, by omega, ?_⟩
+        intro fuel
+        have : fuel + (d1 + 1 + d3 + 1 + d4) = (fuel + d4 + 1 + d3 + 1) + d1 := by omega
+        rw [this, hrun1, hstepC, hrun3', hstepB]
+        have := hrun4 fuel
+        rw [hcF, hlenF] at this
+        exact this
+
+/-- `if (c) { A } else { T }; rest` with a returning alternative -/
+theorem r_if_else_ret (wc : Ctx) (sc : QV.Spec.Sem.Ctx) (ic : ICtx) (isRet : Bool) (wl : QV.Model.Locals)
+    (vars : List QV.Spec.Sem.Var) (cnd : Expr) (A B rest : List Stmt)
+    (hc : WalkOk wc sc ic wl vars cnd) (hA : BodyOk wc sc ic wl vars A) (hB : SOk wc sc ic true wl vars B)
+    (hrest : ROk wc sc ic isRet wl vars rest) :
+    ROk wc sc ic isRet wl vars (.if_ cnd (.block A) (some (.block B)) :: rest) := by
+  intro s s' h hl hvr hinj ho
+  rw [run_stmts_cons] at h
+  cases hd : (walkStmt wc none (.if_ cnd (.block A) (some (.block B)))).run s with
+  | mk r sd =>
+    rw [hd] at h
+    cases r with
+    | none =>
+      simp only at h
+      cases hq : (walkStmts wc none rest).run sd with
+      | mk q sq =>
+        rw [hq] at h
+        cases q <;> (simp only at h; injection h with h _; cases h)
+    | some u =>
+      cases u
+      simp only at h
+      obtain ⟨cop, s1, s2, s3, hw1, hwa, hwb, htc, hsd⟩ := run_if_else wc cnd (.block A) (.block B) s sd hd
+      have r1 := hc s s1 cop hw1 hl hvr ho
+      obtain ⟨blkC, hoC⟩ := r1.walked.exitOpen
+      have w1 : Walked s.b s1.b := r1.walked
+      have hvr1 : VarRel s1.b.newBlock.2.code.locals wl vars := hvr.mono w1.locals
+      obtain ⟨hl2, w2, simA⟩ := branch_ok wc sc ic wl vars A hA { s1 with b := s1.b.newBlock.2 } s2 hwa r1.locals hvr1 hinj
+        ⟨{}, newBlock_open hoC⟩
+      have w2 : Walked s1.b.newBlock.2 s2.b := w2
+      obtain ⟨blkA, hoA⟩ := w2.exitOpen
+      have hvr2 : VarRel s2.b.newBlock.2.code.locals wl vars := hvr1.mono w2.locals
+      rw [run_block] at hwb
+      generalize hrRB : (walkStmts wc none B).run { s2 with b := s2.b.newBlock.2, locals := s1.locals } = pRB at hwb
+      obtain ⟨rrB, sRB⟩ := pRB
+      have hrrB : rrB = some true ∧ s3 = { sRB with locals := s1.locals } := by
+        cases rrB with
+        | none => simp only at hwb; injection hwb with hwb _; cases hwb
+        | some ok =>
+          cases ok with
+          | false => simp only at hwb; injection hwb with hwb _; cases hwb
+          | true => simp only at hwb; injection hwb with _ hs; exact ⟨rfl, hs.symm⟩
+      obtain ⟨hrrB1, hs3⟩ := hrrB
+      subst hrrB1
+      obtain ⟨srB, opB, hfinB, wRB, hokB, simRB⟩ := hB _ sRB hrRB r1.locals hvr2 hinj ⟨{}, newBlock_open hoA⟩
+      have wRB : Walked s2.b.newBlock.2 srB.b := wRB
+      obtain ⟨blkRB, hoRB⟩ := wRB.exitOpen
+      obtain ⟨wvrB, hcurRB, hgetRB, hlocRB, hopenRB⟩ := walked_visitReturn srB.b blkRB opB hoRB
+      have hs3b : s3.b = visitReturnStatement srB.b opB := by rw [hs3]; simpa [finish] using hfinB
+      rw [← hs3b] at wvrB hcurRB hgetRB hlocRB hopenRB
+      have w3 : Walked s2.b.newBlock.2 s3.b := wRB.trans wvrB
+      obtain ⟨blkB, hoB⟩ := w3.exitOpen
+      have hcm1 : s1.b.newBlock.2.currentRef = s1.b.currentRef + 1 := newBlock_cur hoC
+      have hcm2 : s2.b.newBlock.2.currentRef = s2.b.currentRef + 1 := newBlock_cur hoA
+      have hCA : s1.b.currentRef + 1 ≤ s2.b.currentRef := by have := w2.cur_le; omega
+      have hAB : s2.b.currentRef + 1 ≤ s3.b.currentRef := by have := w3.cur_le; omega
+      have hsC : s.b.currentRef ≤ s1.b.currentRef := w1.cur_le
+      have hlenC := open_len hoC
+      have hlenA := open_len hoA
+      have hlenB := open_len hoB
+      have hC2 : s2.b.code.blocks[s1.b.currentRef]? = some blkC := by
+        rw [w2.below _ (by omega), newBlock_get _ _ (by omega)]; exact hoC.1
+      have hC3 : s3.b.code.blocks[s1.b.currentRef]? = some blkC := by
+        rw [w3.below _ (by omega), newBlock_get _ _ (by omega)]; exact hC2
+      have hA3 : s3.b.code.blocks[s2.b.currentRef]? = some blkA := by
+        rw [w3.below _ (by omega), newBlock_get _ _ (by omega)]; exact hoA.1
+      have hCm : s3.b.newBlock.2.code.blocks[s1.b.currentRef]? = some blkC := by
+        rw [newBlock_get _ _ (by omega)]; exact hC3
+      have hAm : s3.b.newBlock.2.code.blocks[s2.b.currentRef]? = some blkA := by
+        rw [newBlock_get _ _ (by omega)]; exact hA3
+      have hBm : s3.b.newBlock.2.code.blocks[s3.b.currentRef]? = some blkB := by
+        rw [newBlock_get _ _ (by omega)]; exact hoB.1
+      obtain ⟨f2, f3, f4, f5, f6, f7, f8, f9⟩ := visitIf_facts s3.b.newBlock.2 cop _ _ _ blkC blkA blkB
+        hCm hoC.2 hAm hoA.2 hBm hoB.2 (by omega) (by omega) (by omega)
+      have hsdb : sd.b = visitIfStatement s3.b.newBlock.2 cop s1.b.currentRef s2.b.currentRef (some s3.b.currentRef) := by
+        rw [hsd]
+      rw [← hsdb] at f2 f3 f4 f5 f6 f7 f8 f9
+      have hnl : s3.b.newBlock.2.code.locals = s3.b.code.locals := rfl
+      have hnlen : s3.b.newBlock.2.code.blocks.length = s3.b.code.blocks.length + 1 := by simp [Builder.newBlock]
+      rw [hnl] at f4
+      have hcF : sd.b.currentRef = s3.b.currentRef + 1 := by
+        simp only [Builder.currentRef] at hlenB ⊢
+        omega
+      have hch1 : ∀ i, i < s1.b.currentRef → sd.b.code.blocks[i]? = s1.b.code.blocks[i]? := by
+        intro i hi
+        rw [f6 i (by omega) (by omega) (by omega), newBlock_get _ _ (by omega), w3.below i (by omega),
+          newBlock_get _ _ (by omega), w2.below i (by omega), newBlock_get _ _ (by omega)]
+      have hch2 : ∀ i, s1.b.currentRef < i → i < s2.b.currentRef → sd.b.code.blocks[i]? = s2.b.code.blocks[i]? := by
+        intro i h1 h2
+        rw [f6 i (by omega) (by omega) (by omega), newBlock_get _ _ (by omega), w3.below i (by omega),
+          newBlock_get _ _ (by omega)]
+      have hch3 : ∀ i, s2.b.currentRef < i → i < s3.b.currentRef → sd.b.code.blocks[i]? = s3.b.code.blocks[i]? := by
+        intro i h1 h2
+        rw [f6 i (by omega) (by omega) (by omega), newBlock_get _ _ (by omega)]
+      have hexit : sd.b.code.blocks[s3.b.currentRef + 1]? = some {} := by
+        rw [f6 _ (by omega) (by omega) (by omega), hlenB]; exact newBlock_last s3.b
+      obtain ⟨t2, hlo2⟩ := w2.locals
+      obtain ⟨t3, hlo3⟩ := w3.locals
+      have hnl1 : s1.b.newBlock.2.code.locals = s1.b.code.locals := rfl
+      have hnl2 : s2.b.newBlock.2.code.locals = s2.b.code.locals := rfl
+      rw [hnl1] at hlo2
+      rw [hnl2] at hlo3
+      have hextF : Ext s1.b sd.b := by
+        refine ⟨f2.trans (w3.panic.trans w2.panic), ⟨t2 ++ t3, by rw [f4, hlo3, hlo2]; simp⟩,
+          f3.trans (w3.params.trans w2.params), by omega, hch1, blkC, _, hoC.1, hoC.2, f7, [], by simp⟩
+      have hwalked : Walked s.b sd.b := by
+        refine ⟨w1.toExt.trans hextF, ?_, ⟨{}, by rw [OpenAt, hcF]; exact ⟨hexit, rfl⟩⟩, ?_⟩
+        · intro i hlo hhi
+          rcases Nat.lt_or_ge i s1.b.currentRef with hlt | hge
+          · obtain ⟨bi, hbi, hti⟩ := w1.closed i hlo hlt
+            exact ⟨bi, by rw [hch1 i hlt]; exact hbi, hti⟩
+          · rcases Nat.eq_or_lt_of_le hge with heq | hgt
+            · subst heq; exact ⟨_, f7, rfl⟩
+            · rcases Nat.lt_or_ge i s2.b.currentRef with hlt2 | hge2
+              · obtain ⟨bi, hbi, hti⟩ := w2.closed i (by omega) hlt2
+                exact ⟨bi, by rw [hch2 i hgt hlt2]; exact hbi, hti⟩
+              · rcases Nat.eq_or_lt_of_le hge2 with heq2 | hgt2
+                · subst heq2; exact ⟨_, f8, rfl⟩
+                · rcases Nat.lt_or_ge i s3.b.currentRef with hlt3 | hge3
+                  · obtain ⟨bi, hbi, hti⟩ := w3.closed i (by omega) hlt3
+                    exact ⟨bi, by rw [hch3 i hgt2 hlt3]; exact hbi, hti⟩
+                  · have : i = s3.b.currentRef := by omega
+                    subst this; exact ⟨_, f9, rfl⟩
+        · intro i hlo hhi bi j hbi hbr
+          rcases Nat.lt_or_ge i s1.b.currentRef with hlt | hge
+          · rw [hch1 i hlt] at hbi
+            have := w1.brs i hlo hlt bi j hbi hbr
+            omega
+          · rcases Nat.eq_or_lt_of_le hge with heq | hgt
+            · subst heq
+              rw [f7] at hbi
+              injection hbi with hbi
+              subst hbi
+              simp at hbr
+            · rcases Nat.lt_or_ge i s2.b.currentRef with hlt2 | hge2
+              · rw [hch2 i hgt hlt2] at hbi
+                have := w2.brs i (by omega) hlt2 bi j hbi hbr
+                omega
+              · rcases Nat.eq_or_lt_of_le hge2 with heq2 | hgt2
+                · subst heq2
+                  rw [f8] at hbi
+                  injection hbi with hbi
+                  subst hbi
+                  simp only [Option.some.injEq, Terminator.br.injEq] at hbr
+                  omega
+                · rcases Nat.lt_or_ge i s3.b.currentRef with hlt3 | hge3
+                  · rw [hch3 i hgt2 hlt3] at hbi
+                    have := w3.brs i (by omega) hlt3 bi j hbi hbr
+                    omega
+                  · have : i = s3.b.currentRef := by omega
+                    subst this
+                    rw [f9] at hbi
+                    injection hbi with hbi
+                    subst hbi
+                    simp only [Option.some.injEq, Terminator.br.injEq] at hbr
+                    omega
+      have hsdl : sd.locals = wl := by rw [hsd]; exact r1.locals
+      have hvrd : VarRel sd.b.code.locals wl vars := by
+        rw [f4]; exact hvr2.mono ⟨t3, by rw [hnl2]; exact hlo3⟩
+      obtain ⟨s4, op4, hfin, w4, hok4, hsim4⟩ := hrest sd s' h hsdl hvrd hinj hwalked.exitOpen
+      refine ⟨s4, op4, hfin, hwalked.trans w4, hok4, ?_⟩
+      intro C hC hret st sst out sst' hvars hw hnc hval hsp
+      have hC' : Covers C sd.b s.b.currentRef := Covers.of_ext w4.toExt hC hwalked.cur_le
+      obtain ⟨xc, sC, o1, sJ, hsc, hsbr, hcont, hretv⟩ := spec_stmts_if_ret sc cnd A B rest sst out sst' hsp
+      have hCv1 : Covers C s1.b s.b.currentRef :=
+        Covers.sub hC' hsC (by omega) (by rw [f4, hlo3, hlo2]; simp [List.append_assoc])
+          (fun i _ hi => hch1 i hi) ⟨blkC, _, hoC.1, f7, List.prefix_refl _⟩
+      have hCv2 : Covers C s2.b (s1.b.currentRef + 1) :=
+        Covers.sub (hC'.mono (by omega)) hCA (by omega) (by rw [f4, hlo3]; exact List.prefix_append _ _)
+          (fun i h1 h2 => hch2 i (by omega) h2) ⟨blkA, _, hoA.1, f8, List.prefix_refl _⟩
+      have hCv3 : Covers C s3.b (s2.b.currentRef + 1) :=
+        Covers.sub (hC'.mono (by omega)) hAB (by omega) (by rw [f4]; exact List.prefix_refl _)
+          (fun i h1 h2 => hch3 i (by omega) h2) ⟨blkB, _, hoB.1, f9, List.prefix_refl _⟩
+      have hCC := hC'.closed _ hsC (by omega : s1.b.currentRef < sd.b.currentRef)
+      rw [f7] at hCC
+      have hCA' := hC'.closed _ (by omega : s.b.currentRef ≤ s2.b.currentRef) (by omega : s2.b.currentRef < sd.b.currentRef)
+      rw [f8] at hCA'
+      have hCB' := hC'.closed _ (by omega : s.b.currentRef ≤ s3.b.currentRef) (by omega : s3.b.currentRef < sd.b.currentRef)
+      rw [f9] at hCB'
+      have hlenF : curLen sd.b = 0 := by simp [curLen, hcF, hexit]
+      obtain ⟨hsa, d1, st1, hd1, hrun1, hv1, hp1, hw1', ht1, _⟩ := r1.sim C hCv1 st sst sC (.bool xc) hvars hw hnc hval hsc
+      subst hsa
+      have hval1 : ValRel wl sC.vars st1.L := hval.mono hvr hp1
+      have hkC : curLen s1.b = blkC.statements.length := curLen_of_open hoC
+      have hstepC : ∀ fuel, runAt ic C (fuel + 1) s1.b.currentRef (curLen s1.b) st1 =
+          runAt ic C fuel (if xc then s1.b.currentRef + 1 else s2.b.currentRef + 1) 0 st1 := by
+        intro fuel
+        exact runAt_brCond ic C fuel _ _ _ _ _ cop st1 xc hCC (by rw [hkC]; exact Nat.le_refl _) rfl hv1
+      have hc4 := w4.cur_le
+      cases xc with
+      | true =>
+        simp only [if_true] at hsbr hstepC
+        obtain ⟨⟨w, ho1⟩, hshJ, d2, st2, hd2, hrun2, hval2, hww2, hw2'⟩ :=
+          simA C (by show Covers C s2.b s1.b.newBlock.2.currentRef; rw [hcm1]; exact hCv2) st1 sC o1 sJ hvars
+            (hw.trans hw1'.symm) (by rw [hw1']; exact hnc) hval1 hsbr
+        obtain ⟨out', hrs, hout⟩ := hcont w ho1
+        have hlenJ : sJ.vars.length = sC.vars.length := by
+          rw [length_of_shape hshJ, length_of_shape hvars]
+        rw [leave_same sJ _ hlenJ, leave_same sJ _ hlenJ] at hrs
+        have hd2' : d2 ≤ s2.b.currentRef - (s1.b.currentRef + 1) := by
+          have : d2 ≤ s2.b.currentRef - s1.b.newBlock.2.currentRef := hd2
+          omega
+        have hrun2' : ∀ fuel, runAt ic C (fuel + d2) (s1.b.currentRef + 1) 0 st1 =
+            runAt ic C fuel s2.b.currentRef (curLen s2.b) st2 := by
+          intro fuel
+          have := hrun2 fuel
+          rw [show ({ s1 with b := s1.b.newBlock.2 } : WState).b = s1.b.newBlock.2 from rfl, hcm1,
+            curLen_of_open (newBlock_open hoC)] at this
+          exact this
+        have hkA : curLen s2.b = blkA.statements.length := curLen_of_open hoA
+        have hstepA : ∀ fuel, runAt ic C (fuel + 1) s2.b.currentRef (curLen s2.b) st2 =
+            runAt ic C fuel (s3.b.currentRef + 1) 0 st2 := by
+          intro fuel
+          exact runAt_br ic C fuel _ _ _ _ st2 hCA' (by rw [hkA]; exact Nat.le_refl _) rfl
+        obtain ⟨val, hout4, d4, res, hd4, hrun4⟩ := hsim4 C (hC.mono hwalked.cur_le) hret st2 sJ out' sst' hshJ hww2
+          (by rw [hw2', hw1']; exact hnc) hval2 hrs
+        refine ⟨val, by rw [hout]; exact outVal_afterVal _ _ _ hout4, d1 + 1 + d2 + 1 + d4, res, by omega, ?_⟩
+        intro fuel
+        have : fuel + (d1 + 1 + d2 + 1 + d4) = (fuel + d4 + 1 + d2 + 1) + d1 := by omega
+        rw [this, hrun1, hstepC, hrun2', hstepA]
+        have := hrun4 fuel
+        rw [hcF, hlenF] at this
+        exact this
+      | false =>
+        simp only [Bool.false_eq_true, if_false] at hsbr hstepC
+        have hcRB := wRB.cur_le
+        have hCvRB : Covers C srB.b (s2.b.currentRef + 1) := Covers.of_ext wvrB.toExt hCv3 (by omega)
+        obtain ⟨v, ho1, d3, st3, hd3, hrun3, hv3⟩ :=
+          simRB C (by show Covers C srB.b s2.b.newBlock.2.currentRef; rw [hcm2]; exact hCvRB) st1 sC o1 sJ hvars
+            (hw.trans hw1'.symm) (by rw [hw1']; exact hnc) hval1 hsbr
+        have hout : out = .ret v := hretv v (by rw [ho1]; rfl)
+        have hd3' : d3 ≤ srB.b.currentRef - (s2.b.currentRef + 1) := by
+          have : d3 ≤ srB.b.currentRef - s2.b.newBlock.2.currentRef := hd3
+          omega
+        have hrun3' : ∀ fuel, runAt ic C (fuel + d3) (s2.b.currentRef + 1) 0 st1 =
+            runAt ic C fuel srB.b.currentRef (curLen srB.b) st3 := by
+          intro fuel
+          have := hrun3 fuel
+          rw [show ({ s2 with b := s2.b.newBlock.2, locals := s1.locals } : WState).b = s2.b.newBlock.2 from rfl, hcm2,
+            curLen_of_open (newBlock_open hoA)] at this
+          exact this
+        have hCR : C.blocks[srB.b.currentRef]? = some { blkRB with terminator := some (.ret (ensureConcreteString opB)) } := by
+          rw [hC'.closed _ (by omega) (by omega), hch3 _ (by omega) (by omega)]
+          exact hgetRB
+        refine ⟨v, by rw [hout]; rfl, d1 + 1 + d3, st3, by omega, ?_⟩
+        intro fuel
+        have : fuel + (d1 + 1 + d3) = (fuel + d3 + 1) + d1 := by omega
+        rw [this, hrun1, hstepC, hrun3', runAt_ret ic C _ _ _ _ (ensureConcreteString opB) st3 hCR
+          (by simp [curLen_of_open hoRB]) rfl, evalOperand_ensure, hv3]
+        rfl
+
+
+/-- `if (c) { T1 } else { T2 }; rest` with both branches returning (`rest` is never executed) -/
+theorem r_if_ret_ret (wc : Ctx) (sc : QV.Spec.Sem.Ctx) (ic : ICtx) (isRet : Bool) (wl : QV.Model.Locals)
+    (vars : List QV.Spec.Sem.Var) (cnd : Expr) (A B rest : List Stmt)
+    (hc : WalkOk wc sc ic wl vars cnd) (hA : SOk wc sc ic true wl vars A) (hB : SOk wc sc ic true wl vars B)
+    (hrest : ROk wc sc ic isRet wl vars rest) :
+    ROk wc sc ic isRet wl vars (.if_ cnd (.block A) (some (.block B)) :: rest) := by
+  intro s s' h hl hvr hinj ho
+  rw [run_stmts_cons] at h
+  cases hd : (walkStmt wc none (.if_ cnd (.block A) (some (.block B)))).run s with
+  | mk r sd =>
+    rw [hd] at h
+    cases r with
+    | none =>
+      simp only at h
+      cases hq : (walkStmts wc none rest).run sd with
+      | mk q sq =>
+        rw [hq] at h
+        cases q <;> (simp only at h; injection h with h _; cases h)
+    | some u =>
+      cases u
+      simp only at h
+      obtain ⟨cop, s1, s2, s3, hw1, hwa, hwb, htc, hsd⟩ := run_if_else wc cnd (.block A) (.block B) s sd hd
+      have r1 := hc s s1 cop hw1 hl hvr ho
+      obtain ⟨blkC, hoC⟩ := r1.walked.exitOpen
+      have w1 : Walked s.b s1.b := r1.walked
+      have hvr1 : VarRel s1.b.newBlock.2.code.locals wl vars := hvr.mono w1.locals
+      rw [run_block] at hwa
+      generalize hrRA : (walkStmts wc none A).run { s1 with b := s1.b.newBlock.2 } = pRA at hwa
+      obtain ⟨rrA, sRA⟩ := pRA
+      have hrrA : rrA = some true ∧ s2 = { sRA with locals := s1.locals } := by
+        cases rrA with
+        | none => simp only at hwa; injection hwa with hwa _; cases hwa
+        | some ok =>
+          cases ok with
+          | false => simp only at hwa; injection hwa with hwa _; cases hwa
+          | true => simp only at hwa; injection hwa with _ hs; exact ⟨rfl, hs.symm⟩
+      obtain ⟨hrrA1, hs2⟩ := hrrA
+      subst hrrA1
+      obtain ⟨srA, opA, hfinA, wRA, hokA, simRA⟩ := hA _ sRA hrRA r1.locals hvr1 hinj ⟨{}, newBlock_open hoC⟩
+      have wRA : Walked s1.b.newBlock.2 srA.b := wRA
+      obtain ⟨blkRA, hoRA⟩ := wRA.exitOpen
+      obtain ⟨wvrA, hcurRA, hgetRA, hlocRA, hopenRA⟩ := walked_visitReturn srA.b blkRA opA hoRA
+      have hs2b : s2.b = visitReturnStatement srA.b opA := by rw [hs2]; simpa [finish] using hfinA
+      rw [← hs2b] at wvrA hcurRA hgetRA hlocRA hopenRA
+      have w2 : Walked s1.b.newBlock.2 s2.b := wRA.trans wvrA
+      have hl2 : s2.locals = wl := by rw [hs2]; exact r1.locals
+      obtain ⟨blkA, hoA⟩ := w2.exitOpen
+      have hvr2 : VarRel s2.b.newBlock.2.code.locals wl vars := hvr1.mono w2.locals
+      rw [run_block] at hwb
+      generalize hrRB : (walkStmts wc none B).run { s2 with b := s2.b.newBlock.2, locals := s1.locals } = pRB at hwb
+      obtain ⟨rrB, sRB⟩ := pRB
+      have hrrB : rrB = some true ∧ s3 = { sRB with locals := s1.locals } := by
+        cases rrB with
+        | none => simp only at hwb; injection hwb with hwb _; cases hwb
+        | some ok =>
+          cases ok with
+          | false => simp only at hwb; injection hwb with hwb _; cases hwb
+          | true => simp only at hwb; injection hwb with _ hs; exact ⟨rfl, hs.symm⟩
+      obtain ⟨hrrB1, hs3⟩ := hrrB
+      subst hrrB1
+      obtain ⟨srB, opB, hfinB, wRB, hokB, simRB⟩ := hB _ sRB hrRB r1.locals hvr2 hinj ⟨{}, newBlock_open hoA⟩
+      have wRB : Walked s2.b.newBlock.2 srB.b := wRB
+      obtain ⟨blkRB, hoRB⟩ := wRB.exitOpen
+      obtain ⟨wvrB, hcurRB, hgetRB, hlocRB, hopenRB⟩ := walked_visitReturn srB.b blkRB opB hoRB
+      have hs3b : s3.b = visitReturnStatement srB.b opB := by rw [hs3]; simpa [finish] using hfinB
+      rw [← hs3b] at wvrB hcurRB hgetRB hlocRB hopenRB
+      have w3 : Walked s2.b.newBlock.2 s3.b := wRB.trans wvrB
+      obtain ⟨blkB, hoB⟩ := w3.exitOpen
+      have hcm1 : s1.b.newBlock.2.currentRef = s1.b.currentRef + 1 := newBlock_cur hoC
+      have hcm2 : s2.b.newBlock.2.currentRef = s2.b.currentRef + 1 := newBlock_cur hoA
+      have hCA : s1.b.currentRef + 1 ≤ s2.b.currentRef := by have := w2.cur_le; omega
+      have hAB : s2.b.currentRef + 1 ≤ s3.b.currentRef := by have := w3.cur_le; omega
+      have hsC : s.b.currentRef ≤ s1.b.currentRef := w1.cur_le
+      have hlenC := open_len hoC
+      have hlenA := open_len hoA
+      have hlenB := open_len hoB
+      have hC2 : s2.b.code.blocks[s1.b.currentRef]? = some blkC := by
+        rw [w2.below _ (by omega), newBlock_get _ _ (by omega)]; exact hoC.1
+      have hC3 : s3.b.code.blocks[s1.b.currentRef]? = some blkC := by
+        rw [w3.below _ (by omega), newBlock_get _ _ (by omega)]; exact hC2
+      have hA3 : s3.b.code.blocks[s2.b.currentRef]? = some blkA := by
+        rw [w3.below _ (by omega), newBlock_get _ _ (by omega)]; exact hoA.1
+      have hCm : s3.b.newBlock.2.code.blocks[s1.b.currentRef]? = some blkC := by
+        rw [newBlock_get _ _ (by omega)]; exact hC3
+      have hAm : s3.b.newBlock.2.code.blocks[s2.b.currentRef]? = some blkA := by
+        rw [newBlock_get _ _ (by omega)]; exact hA3
+      have hBm : s3.b.newBlock.2.code.blocks[s3.b.currentRef]? = some blkB := by
+        rw [newBlock_get _ _ (by omega)]; exact hoB.1
+      obtain ⟨f2, f3, f4, f5, f6, f7, f8, f9⟩ := visitIf_facts s3.b.newBlock.2 cop _ _ _ blkC blkA blkB
+        hCm hoC.2 hAm hoA.2 hBm hoB.2 (by omega) (by omega) (by omega)
+      have hsdb : sd.b = visitIfStatement s3.b.newBlock.2 cop s1.b.currentRef s2.b.currentRef (some s3.b.currentRef) := by
+        rw [hsd]
+      rw [← hsdb] at f2 f3 f4 f5 f6 f7 f8 f9
+      have hnl : s3.b.newBlock.2.code.locals = s3.b.code.locals := rfl
+      have hnlen : s3.b.newBlock.2.code.blocks.length = s3.b.code.blocks.length + 1 := by simp [Builder.newBlock]
+      rw [hnl] at f4
+      have hcF : sd.b.currentRef = s3.b.currentRef + 1 := by
+        simp only [Builder.currentRef] at hlenB ⊢
+        omega
+      have hch1 : ∀ i, i < s1.b.currentRef → sd.b.code.blocks[i]? = s1.b.code.blocks[i]? := by
+        intro i hi
+        rw [f6 i (by omega) (by omega) (by omega), newBlock_get _ _ (by omega), w3.below i (by omega),
+          newBlock_get _ _ (by omega), w2.below i (by omega), newBlock_get _ _ (by omega)]
+      have hch2 : ∀ i, s1.b.currentRef < i → i < s2.b.currentRef → sd.b.code.blocks[i]? = s2.b.code.blocks[i]? := by
+        intro i h1 h2
+        rw [f6 i (by omega) (by omega) (by omega), newBlock_get _ _ (by omega), w3.below i (by omega),
+          newBlock_get _ _ (by omega)]
+      have hch3 : ∀ i, s2.b.currentRef < i → i < s3.b.currentRef → sd.b.code.blocks[i]? = s3.b.code.blocks[i]? := by
+        intro i h1 h2
+        rw [f6 i (by omega) (by omega) (by omega), newBlock_get _ _ (by omega)]
+      have hexit : sd.b.code.blocks[s3.b.currentRef + 1]? = some {} := by
+        rw [f6 _ (by omega) (by omega) (by omega), hlenB]; exact newBlock_last s3.b
+      obtain ⟨t2, hlo2⟩ := w2.locals
+      obtain ⟨t3, hlo3⟩ := w3.locals
+      have hnl1 : s1.b.newBlock.2.code.locals = s1.b.code.locals := rfl
+      have hnl2 : s2.b.newBlock.2.code.locals = s2.b.code.locals := rfl
+      rw [hnl1] at hlo2
+      rw [hnl2] at hlo3
+      have hextF : Ext s1.b sd.b := by
+        refine ⟨f2.trans (w3.panic.trans w2.panic), ⟨t2 ++ t3, by rw [f4, hlo3, hlo2]; simp⟩,
+          f3.trans (w3.params.trans w2.params), by omega, hch1, blkC, _, hoC.1, hoC.2, f7, [], by simp⟩
+      have hwalked : Walked s.b sd.b := by
+        refine ⟨w1.toExt.trans hextF, ?_, ⟨{}, by rw [OpenAt, hcF]; exact ⟨hexit, rfl⟩⟩, ?_⟩
+        · intro i hlo hhi
+          rcases Nat.lt_or_ge i s1.b.currentRef with hlt | hge
+          · obtain ⟨bi, hbi, hti⟩ := w1.closed i hlo hlt
+            exact ⟨bi, by rw [hch1 i hlt]; exact hbi, hti⟩
+          · rcases Nat.eq_or_lt_of_le hge with heq | hgt
+            · subst heq; exact ⟨_, f7, rfl⟩
+            · rcases Nat.lt_or_ge i s2.b.currentRef with hlt2 | hge2
+              · obtain ⟨bi, hbi, hti⟩ := w2.closed i (by omega) hlt2
+                exact ⟨bi, by rw [hch2 i hgt hlt2]; exact hbi, hti⟩
+              · rcases Nat.eq_or_lt_of_le hge2 with heq2 | hgt2
+                · subst heq2; exact ⟨_, f8, rfl⟩
+                · rcases Nat.lt_or_ge i s3.b.currentRef with hlt3 | hge3
+                  · obtain ⟨bi, hbi, hti⟩ := w3.closed i (by omega) hlt3
+                    exact ⟨bi, by rw [hch3 i hgt2 hlt3]; exact hbi, hti⟩
+                  · have : i = s3.b.currentRef := by omega
+                    subst this; exact ⟨_, f9, rfl⟩
+        · intro i hlo hhi bi j hbi hbr
+          rcases Nat.lt_or_ge i s1.b.currentRef with hlt | hge
+          · rw [hch1 i hlt] at hbi
+            have := w1.brs i hlo hlt bi j hbi hbr
+            omega
+          · rcases Nat.eq_or_lt_of_le hge with heq | hgt
+            · subst heq
+              rw [f7] at hbi
+              injection hbi with hbi
+              subst hbi
+              simp at hbr
+            · rcases Nat.lt_or_ge i s2.b.currentRef with hlt2 | hge2
+              · rw [hch2 i hgt hlt2] at hbi
+                have := w2.brs i (by omega) hlt2 bi j hbi hbr
+                omega
+              · rcases Nat.eq_or_lt_of_le hge2 with heq2 | hgt2
+                · subst heq2
+                  rw [f8] at hbi
+                  injection hbi with hbi
+                  subst hbi
+                  simp only [Option.some.injEq, Terminator.br.injEq] at hbr
+                  omega
+                · rcases Nat.lt_or_ge i s3.b.currentRef with hlt3 | hge3
+                  · rw [hch3 i hgt2 hlt3] at hbi
+                    have := w3.brs i (by omega) hlt3 bi j hbi hbr
+                    omega
+                  · have : i = s3.b.currentRef := by omega
+                    subst this
+                    rw [f9] at hbi
+                    injection hbi with hbi
+                    subst hbi
+                    simp only [Option.some.injEq, Terminator.br.injEq] at hbr
+                    omega
+      have hsdl : sd.locals = wl := by rw [hsd]; exact r1.locals
+      have hvrd : VarRel sd.b.code.locals wl vars := by
+        rw [f4]; exact hvr2.mono ⟨t3, by rw [hnl2]; exact hlo3⟩
+      obtain ⟨s4, op4, hfin, w4, hok4, hsim4⟩ := hrest sd s' h hsdl hvrd hinj hwalked.exitOpen
+      refine ⟨s4, op4, hfin, hwalked.trans w4, hok4, ?_⟩
+      intro C hC hret st sst out sst' hvars hw hnc hval hsp
+      have hC' : Covers C sd.b s.b.currentRef := Covers.of_ext w4.toExt hC hwalked.cur_le
+      obtain ⟨xc, sC, o1, sJ, hsc, hsbr, hcont, hretv⟩ := spec_stmts_if_ret sc cnd A B rest sst out sst' hsp
+      have hCv1 : Covers C s1.b s.b.currentRef :=
+        Covers.sub hC' hsC (by omega) (by rw [f4, hlo3, hlo2]; simp [List.append_assoc])
+          (fun i _ hi => hch1 i hi) ⟨blkC, _, hoC.1, f7, List.prefix_refl _⟩
+      have hCv2 : Covers C s2.b (s1.b.currentRef + 1) :=
+        Covers.sub (hC'.mono (by omega)) hCA (by omega) (by rw [f4, hlo3]; exact List.prefix_append _ _)
+          (fun i h1 h2 => hch2 i (by omega) h2) ⟨blkA, _, hoA.1, f8, List.prefix_refl _⟩
+      have hCv3 : Covers C s3.b (s2.b.currentRef + 1) :=
+        Covers.sub (hC'.mono (by omega)) hAB (by omega) (by rw [f4]; exact List.prefix_refl _)
+          (fun i h1 h2 => hch3 i (by omega) h2) ⟨blkB, _, hoB.1, f9, List.prefix_refl _⟩
+      have hCC := hC'.closed _ hsC (by omega : s1.b.currentRef < sd.b.currentRef)
+      rw [f7] at hCC
+      have hCA' := hC'.closed _ (by omega : s.b.currentRef ≤ s2.b.currentRef) (by omega : s2.b.currentRef < sd.b.currentRef)
+      rw [f8] at hCA'
+      have hCB' := hC'.closed _ (by omega : s.b.currentRef ≤ s3.b.currentRef) (by omega : s3.b.currentRef < sd.b.currentRef)
+      rw [f9] at hCB'
+      have hlenF : curLen sd.b = 0 := by simp [curLen, hcF, hexit]
+      obtain ⟨hsa, d1, st1, hd1, hrun1, hv1, hp1, hw1', ht1, _⟩ := r1.sim C hCv1 st sst sC (.bool xc) hvars hw hnc hval hsc
+      subst hsa
+      have hval1 : ValRel wl sC.vars st1.L := hval.mono hvr hp1
+      have hkC : curLen s1.b = blkC.statements.length := curLen_of_open hoC
+      have hstepC : ∀ fuel, runAt ic C (fuel + 1) s1.b.currentRef (curLen s1.b) st1 =
+          runAt ic C fuel (if xc then s1.b.currentRef + 1 else s2.b.currentRef + 1) 0 st1 := by
+        intro fuel
+        exact runAt_brCond ic C fuel _ _ _ _ _ cop st1 xc hCC (by rw [hkC]; exact Nat.le_refl _) rfl hv1
+      have hc4 := w4.cur_le
+      cases xc with
+      | true =>
+        simp only [if_true] at hsbr hstepC
+        have hcRA := wRA.cur_le
+        have hCvRA : Covers C srA.b (s1.b.currentRef + 1) := Covers.of_ext wvrA.toExt hCv2 (by omega)
+        obtain ⟨v, ho1, d2, st2, hd2, hrun2, hv2⟩ :=
+          simRA C (by show Covers C srA.b s1.b.newBlock.2.currentRef; rw [hcm1]; exact hCvRA) st1 sC o1 sJ hvars
+            (hw.trans hw1'.symm) (by rw [hw1']; exact hnc) hval1 hsbr
+        have hout : out = .ret v := hretv v (by rw [ho1]; rfl)
+        have hd2' : d2 ≤ srA.b.currentRef - (s1.b.currentRef + 1) := by
+          have : d2 ≤ srA.b.currentRef - s1.b.newBlock.2.currentRef := hd2
+          omega
+        have hrun2' : ∀ fuel, runAt ic C (fuel + d2) (s1.b.currentRef + 1) 0 st1 =
+            runAt ic C fuel srA.b.currentRef (curLen srA.b) st2 := by
+          intro fuel
+          have := hrun2 fuel
+          rw [show ({ s1 with b := s1.b.newBlock.2 } : WState).b = s1.b.newBlock.2 from rfl, hcm1,
+            curLen_of_open (newBlock_open hoC)] at this
+          exact this
+        have hCR : C.blocks[srA.b.currentRef]? = some { blkRA with terminator := some (.ret (ensureConcreteString opA)) } := by
+          rw [hC'.closed _ (by omega) (by omega), hch2 _ (by omega) (by omega)]
+          exact hgetRA
+        refine ⟨v, by rw [hout]; rfl, d1 + 1 + d2, st2, by omega, ?_⟩
+        intro fuel
+        have : fuel + (d1 + 1 + d2) = (fuel + d2 + 1) + d1 := by omega
+        rw [this, hrun1, hstepC, hrun2', runAt_ret ic C _ _ _ _ (ensureConcreteString opA) st2 hCR
+          (by simp [curLen_of_open hoRA]) rfl, evalOperand_ensure, hv2]
+        rfl
+      | false =>
+        simp only [Bool.false_eq_true, if_false] at hsbr hstepC
+        have hcRB := wRB.cur_le
+        have hCvRB : Covers C srB.b (s2.b.currentRef + 1) := Covers.of_ext wvrB.toExt hCv3 (by omega)
+        obtain ⟨v, ho1, d3, st3, hd3, hrun3, hv3⟩ :=
+          simRB C (by show Covers C srB.b s2.b.newBlock.2.currentRef; rw [hcm2]; exact hCvRB) st1 sC o1 sJ hvars
+            (hw.trans hw1'.symm) (by rw [hw1']; exact hnc) hval1 hsbr
+        have hout : out = .ret v := hretv v (by rw [ho1]; rfl)
+        have hd3' : d3 ≤ srB.b.currentRef - (s2.b.currentRef + 1) := by
+          have : d3 ≤ srB.b.currentRef - s2.b.newBlock.2.currentRef := hd3
+          omega
+        have hrun3' : ∀ fuel, runAt ic C (fuel + d3) (s2.b.currentRef + 1) 0 st1 =
+            runAt ic C fuel srB.b.currentRef (curLen srB.b) st3 := by
+          intro fuel
+          have := hrun3 fuel
+          rw [show ({ s2 with b := s2.b.newBlock.2, locals := s1.locals } : WState).b = s2.b.newBlock.2 from rfl, hcm2,
+            curLen_of_open (newBlock_open hoA)] at this
+          exact this
+        have hCR : C.blocks[srB.b.currentRef]? = some { blkRB with terminator := some (.ret (ensureConcreteString opB)) } := by
+          rw [hC'.closed _ (by omega) (by omega), hch3 _ (by omega) (by omega)]
+          exact hgetRB
+        refine ⟨v, by rw [hout]; rfl, d1 + 1 + d3, st3, by omega, ?_⟩
+        intro fuel
+        have : fuel + (d1 + 1 + d3) = (fuel + d3 + 1) + d1 := by omega
+        rw [this, hrun1, hstepC, hrun3', runAt_ret ic C _ _ _ _ (ensureConcreteString opB) st3 hCR
+          (by simp [curLen_of_open hoRB]) rfl, evalOperand_ensure, hv3]
+        rfl
+
+
 /-! ### from the result of the run to the value of the binding -/
 
 /-- from the exit position of a walk that started in the initial builder to the value of the binding, when the program
@@ -1129,7 +1922,8 @@ theorem ir_of_return_finish_r (ic : ICtx) (s1 : WState) (op : Operand) (w : Worl
 
 /-- statement lists
       S ::= e | return e | let x = e; S | const x = e; S | x = e; S | if (e) { A } else { A }; S | if (e) { A }; S
-          | if (e) { T }; S                                   (early return)
+          | if (e) { T }; S | if (e) { T } else { A }; S | if (e) { A } else { T }; S | if (e) { T } else { T }; S
+                                                              (early returns; after two returning branches S is dead)
       T ::= S that ends in `return e` and has no early return itself (`IFrag wc true`)
       A ::= ε | x = e; A -/
 inductive RFrag (wc : Ctx) : Bool → List String → List Stmt → Prop
@@ -1150,6 +1944,15 @@ inductive RFrag (wc : Ctx) : Bool → List String → List Stmt → Prop
   | ifRet (isRet : Bool) (scope : List String) (cnd : Expr) (T rest : List Stmt) :
       CfgFrag wc scope cnd → IFrag wc true scope T → RFrag wc isRet scope rest →
       RFrag wc isRet scope (.if_ cnd (.block T) none :: rest)
+  | ifRetElse (isRet : Bool) (scope : List String) (cnd : Expr) (T B rest : List Stmt) :
+      CfgFrag wc scope cnd → IFrag wc true scope T → BodyFrag wc scope B → RFrag wc isRet scope rest →
+      RFrag wc isRet scope (.if_ cnd (.block T) (some (.block B)) :: rest)
+  | ifElseRet (isRet : Bool) (scope : List String) (cnd : Expr) (A T rest : List Stmt) :
+      CfgFrag wc scope cnd → BodyFrag wc scope A → IFrag wc true scope T → RFrag wc isRet scope rest →
+      RFrag wc isRet scope (.if_ cnd (.block A) (some (.block T)) :: rest)
+  | ifRetRet (isRet : Bool) (scope : List String) (cnd : Expr) (T1 T2 rest : List Stmt) :
+      CfgFrag wc scope cnd → IFrag wc true scope T1 → IFrag wc true scope T2 → RFrag wc isRet scope rest →
+      RFrag wc isRet scope (.if_ cnd (.block T1) (some (.block T2)) :: rest)
 
 theorem iFrag_rFrag {wc : Ctx} {isRet : Bool} {scope : List String} {stmts : List Stmt}
     (h : IFrag wc isRet scope stmts) : RFrag wc isRet scope stmts := by
@@ -1197,5 +2000,18 @@ theorem walk_r (wc : Ctx) (sc : QV.Spec.Sem.Ctx) (ic : ICtx) (hag : Agree wc sc 
     intro wl vars hsc
     exact r_if_ret wc sc ic isRet wl vars cnd T rest (walk_cfg wc sc ic hag scope wl vars hsc cnd hc)
       (walk_i wc sc ic hag true scope T hT wl vars hsc) (ih wl vars hsc)
+  | ifRetElse isRet scope cnd T B rest hc hT hB _ ih =>
+    intro wl vars hsc
+    exact r_if_ret_else wc sc ic isRet wl vars cnd T B rest (walk_cfg wc sc ic hag scope wl vars hsc cnd hc)
+      (walk_i wc sc ic hag true scope T hT wl vars hsc) (walk_body wc sc ic hag scope wl vars hsc B hB) (ih wl vars hsc)
+  | ifElseRet isRet scope cnd A T rest hc hA hT _ ih =>
+    intro wl vars hsc
+    exact r_if_else_ret wc sc ic isRet wl vars cnd A T rest (walk_cfg wc sc ic hag scope wl vars hsc cnd hc)
+      (walk_body wc sc ic hag scope wl vars hsc A hA) (walk_i wc sc ic hag true scope T hT wl vars hsc) (ih wl vars hsc)
+  | ifRetRet isRet scope cnd T1 T2 rest hc hT1 hT2 _ ih =>
+    intro wl vars hsc
+    exact r_if_ret_ret wc sc ic isRet wl vars cnd T1 T2 rest (walk_cfg wc sc ic hag scope wl vars hsc cnd hc)
+      (walk_i wc sc ic hag true scope T1 hT1 wl vars hsc) (walk_i wc sc ic hag true scope T2 hT2 wl vars hsc)
+      (ih wl vars hsc)
 
 end QV.Proofs.SemCfgStmtRet
